@@ -230,6 +230,11 @@ def gen_op(rng, st):
         op = _gen_xform(rng, st, s, name, live)
         if op.get('op') == 'xform' and 'sid' in op and rng.random() < 0.3:
             st.pending_write = op['sid']
+        if op.get('op') == 'xform' and 'sid' in op and \
+                name in ('copy', 'slice', 'subset', 'renamevar', 'renamedim') and rng.random() < 0.12:
+            # results created on disk (set_dest): their handles take part in the
+            # open / close / drop / collect schedule like any other disk file
+            op['dest'] = 'dest_%d.nc' % op['sid']
         return op
     return _gen_query(rng, st, s, name)
 
@@ -578,6 +583,36 @@ def _coordvals(s, dim, frac):
 
 
 def _do_xform(st, s, op):
+    """with op['dest']: the receiver is told to create its results on disk
+    (set_dest), so the result is a disk-backed file with a handle of its own"""
+    dest = op.get('dest')
+    if not dest:
+        return _do_xform_inner(st, s, op)
+    f = s.obj
+    path = st.w.path(dest)
+    try:
+        f.set_dest(path, mode='w', format='NETCDF4_CLASSIC')
+    except Exception:
+        return _do_xform_inner(st, s, op)
+    st.w.probe('result_created_on_disk_via_set_dest')
+    try:
+        ns, note = _do_xform_inner(st, s, op)
+    finally:
+        try:
+            if isinstance(getattr(f, '__dict__', None), dict) and '_destination' in f.__dict__:
+                del f.__dict__['_destination']
+            else:
+                object.__setattr__(f, '_destination', None)
+        except Exception:
+            pass
+    if ns is not None and getattr(ns.obj, '_grpid', None) is not None:
+        ns.kind = 'dest'
+        ns.writable = False
+        ns.path = path
+    return ns, note
+
+
+def _do_xform_inner(st, s, op):
     import PseudoNetCDF as pnc
     f = s.obj
     name = op['name']
